@@ -56,6 +56,16 @@ def variants(p, lm):
             for k, (_, c) in enumerate(got):
                 if pub(c) != pa:
                     raise Fail("option-not-passed-through", f"labelmsm={lm!r}: stream reader (validate={val}, quitonerror={qoe}, frame {k}) differs from RTCMMessage(payload, labelmsm)")
+        # a frame of the same type whose payload stops after three bytes (rightly framed, rejected by the decoder) between
+        # the two: the option still reaches the parse behind a failed one
+        g = framing.build_frame(p[:3])
+        if g == f:
+            continue
+        goods = [c for r, c in RTCMReader(io.BytesIO(f + g + f), labelmsm=lm, quitonerror=0, validate=val) if r == f]
+        if len(goods) != 2:
+            raise Fail("reader-lost-frame", f"reader with labelmsm={lm!r} validate={val} returned {len(goods)} of the two frames around an undecodable one")
+        if pub(goods[1]) != pa:
+            raise Fail("option-not-passed-through", f"labelmsm={lm!r}: stream reader (validate={val}): the frame behind an undecodable frame differs from RTCMMessage(payload, labelmsm)")
     return pa
 
 
